@@ -246,6 +246,30 @@ def job_melody_est_octave_and_sign(n):
                funcs=['melody.evaluate', 'melody.freq_to_voicing', 'melody.hz2cents', 'melody.raw_chroma_accuracy'], bounds=dict(frames=n), timeout_s=1500)
 
 
+def job_melody_sign_resampled(n, m):
+    """the estimate lives on its own (concrete 0.5 s) time base, so melody.evaluate resamples it: negating estimated
+    frequencies (= marking frames unvoiced while keeping the pitch) must still leave raw pitch / raw chroma accuracy unchanged"""
+    def build(ctx):
+        d = E._b_melody(ctx, (n, m))
+        rt, rf, et, ef = d['args']
+        return dict(rt=rt, rf=rf, et=et, ef=ef)
+
+    def body(A, inp):
+        ef = inp['ef']
+        s1 = MEL.evaluate(inp['rt'], inp['rf'], inp['et'], ef)
+        A.observe('RPA', s1['Raw Pitch Accuracy'])
+        A.observe('RCA', s1['Raw Chroma Accuracy'])
+        efc = np.asarray(S.demote(ef) if isinstance(ef, S.SymArray) else ef, dtype=float)
+        for mask in ([True] * m, [i % 2 == 0 for i in range(m)], [i % 2 == 1 for i in range(m)]):
+            neg = np.where(np.array(mask), -efc, efc)
+            neg = S._wrap(neg) if A.sym else neg
+            s3 = MEL.evaluate(inp['rt'], inp['rf'], inp['et'], neg)
+            A.require(A.eq(s1['Raw Pitch Accuracy'], s3['Raw Pitch Accuracy']), 'melody.raw_pitch_accuracy:unchanged-by-negating-estimated-frequencies(resampled estimate)')
+            A.require(A.eq(s1['Raw Chroma Accuracy'], s3['Raw Chroma Accuracy']), 'melody.raw_chroma_accuracy:unchanged-by-negating-estimated-frequencies(resampled estimate)')
+    return Job('C09', 'melody.evaluate[sign flip, estimate on its own time base,%dx%d frames]' % (n, m), build, body, exact_floats=False,
+               funcs=['melody.evaluate', 'melody.resample_melody_series', 'melody.to_cent_voicing', 'melody.freq_to_voicing'], bounds=dict(ref_frames=n, est_frames=m), timeout_s=1500)
+
+
 def job_multipitch_scale(size, octave, est_only=False):
     spec = T.by_name('multipitch.metrics')
 
@@ -314,6 +338,9 @@ def jobs(tier):
     for n in ((1, 2) if q else (1, 2, 3)):
         js.append(job_melody_scale(n))
         js.append(job_melody_est_octave_and_sign(n))
+    js.append(job_melody_sign_resampled(2, 3))
+    if not q:
+        js.append(job_melody_sign_resampled(3, 4))
     for size in ([(1, 1)] if q else [(1, 1), (2, 1)]):
         js.append(job_multipitch_scale(size, octave=False))
         js.append(job_multipitch_scale(size, octave=True))
